@@ -85,3 +85,8 @@ check("C16", "model_checking",
   "Atomic activities; exhaustive where <= 2 interrupts are open, deviation-bounded (3 / 6) otherwise and 2 / 3 for the hook scenarios.",
   "stateless model checking of the implementation: replay DFS over completion orders and activity orders with counting oracles on the trace",
   "DESIGN.md section 4 C16")
+check("C06", "model_checking",
+  "Catch lists (every sequence of <= 2 catches over {on e1, on e2, catch-all} x body {none, message step, interrupt step}) are placed on the failing act, on the step around it and on the outer step of a two-branch spine; the error comes from a client error action with code e1 / e2 / e3 / e10 and a message, from a throwing script or from an unknown package, while a second interrupt is open in the sibling branch; every order of queued tasks and client answers is executed (exhaustive per model); a reference prediction (innermost list with a match, first match in the list) decides which catch steps run (exactly once, no others), that the catcher completes and its successor runs while the tasks below stay in error, and for no match that the whole spine is marked and exactly one error event carries the original code and message.",
+  "Atomic activities; 600-1500 generated models per tier.",
+  "stateless model checking of the implementation over a generated model family, each model judged against a reference interpreter of the catch semantics",
+  "DESIGN.md section 4 C06")
